@@ -662,3 +662,133 @@ Section BufSteps.
       right. rewrite wmul_eq; [reflexivity|]. pose proof (off_lt a (a_num a) I Hn). lia.
   Qed.
 End BufSteps.
+
+(** ** worlds and histories *)
+Section Histories.
+  Variable cmp : elem -> elem -> comparison.
+  Notation le := (VecSpec.le cmp).
+  Hypothesis le_trans : forall a b c, le a b -> le b c -> le a c.
+  Hypothesis le_total : forall a b, le a b \/ le b a.
+
+  Lemma get_set_same : forall w which h x, get_v (set_v w which h x) which = x.
+  Proof. intros w [|] h x; reflexivity. Qed.
+  Lemma get_set_other : forall w which h x, get_v (set_v w which h x) (negb which) = get_v w (negb which).
+  Proof. intros w [|] h x; reflexivity. Qed.
+  Lemma b_set : forall w which h x, w_b (set_v w which h x) = w_b w.
+  Proof. intros w [|] h x; reflexivity. Qed.
+
+  Lemma world_inv_set : forall w which h x, world_inv w -> ovec_inv x -> world_inv (set_v w which h x).
+  Proof. intros w [|] h x [I0 [I1 Ib]] Ix; unfold world_inv; cbn; auto. Qed.
+
+  Lemma world_inv_get : forall w which, world_inv w -> ovec_inv (get_v w which).
+  Proof. intros w [|] [I0 [I1 Ib]]; cbn; auto. Qed.
+
+  Lemma fresh_vec_inv : forall z, 0 < z -> vec_inv (mkVec None (mkArr z 0 0 [])).
+  Proof.
+    intros z Hz. split; cbn; auto. constructor; cbn; auto; try lia.
+    rewrite N.mul_0_r, HALF_val. lia.
+  Qed.
+
+  Theorem wstep_ok : forall w o, world_inv w -> wop_pre w o ->
+      world_inv (fst (wstep cmp w o)) /\ wstep_post cmp w o (fst (wstep cmp w o)) (snd (wstep cmp w o)).
+  Proof.
+    intros w o Iw Hpre. pose proof Iw as [I0 [I1 Ib]].
+    destruct o as [which siz|which dt| |which o|siz num|dt|o]; cbn [wstep].
+    - (* a_vec_new *)
+      destruct (get_v w which) as [[id v]|] eqn:G.
+      + cbn [fst snd]. split; [exact Iw|]. unfold wstep_post. cbn [absent o_err]. rewrite G. auto.
+      + unfold vec_new. destruct (a_alloc (w_heap w) None 32) as [[p h1] ev]. destruct p as [id|]; cbn [fst snd].
+        * assert (Hz : 0 < (if siz =? 0 then 1 else siz)) by (destruct (N.eqb_spec siz 0); lia).
+          split; [apply world_inv_set; [exact Iw|apply (fresh_vec_inv _ Hz)]|].
+          unfold wstep_post. cbn [o_err]. rewrite G, get_set_same, get_set_other, b_set.
+          splits; auto.
+        * split; [apply world_inv_set; [exact Iw|exact I]|].
+          unfold wstep_post. cbn [o_err]. rewrite G, get_set_same, get_set_other, b_set.
+          splits; auto.
+    - (* a_vec_die *)
+      destruct (get_v w which) as [[id v]|] eqn:G.
+      + pose proof (world_inv_get w which Iw) as Iv. rewrite G in Iv. cbn in Iv. destruct Iv as [Ia Hp].
+        unfold vec_die. rewrite (arr_dtor_down_spec (v_arr v) 0 dt Ia). cbn [bind].
+        destruct (match v_ptr v with Some p => a_alloc (w_heap w) (Some p) 0 | None => (None, w_heap w, []) end)
+          as [[p1 h1] ev1].
+        destruct (a_alloc h1 (Some id) 0) as [[p2 h2] ev2]. cbn [fst snd].
+        split; [apply world_inv_set; [exact Iw|exact I]|].
+        unfold wstep_post. cbn [o_err o_dtor]. rewrite G, get_set_same, get_set_other, b_set.
+        cbn [vview N.to_nat skipn]. splits; auto.
+      + cbn [fst snd]. split; [exact Iw|]. unfold wstep_post. cbn [absent o_err o_dtor]. rewrite G.
+        cbn [vview]. splits; auto.
+    - (* a_vec_swap *)
+      destruct (w_v0 w) as [[i0 x0]|] eqn:G0; [destruct (w_v1 w) as [[i1 x1]|] eqn:G1|]; cbn [fst snd].
+      + split; [unfold world_inv; cbn; auto|].
+        unfold wstep_post. rewrite G0, G1. cbn [o_err w_b w_v0 w_v1 vview]. splits; auto. left.
+        splits; auto; discriminate.
+      + split; [exact Iw|]. unfold wstep_post. cbn [absent o_err]. splits; auto.
+      + split; [exact Iw|]. unfold wstep_post. cbn [absent o_err]. splits; auto.
+    - (* a vector operation *)
+      destruct (get_v w which) as [[id v]|] eqn:G.
+      + pose proof (world_inv_get w which Iw) as Iv. rewrite G in Iv. cbn in Iv.
+        cbn [wop_pre] in Hpre. rewrite G in Hpre.
+        destruct (vec_step_refines cmp le_trans le_total (w_heap w) v o Iv Hpre)
+          as [h1 [v1 [r [E [Iv1 [Er Sp]]]]]].
+        rewrite E. cbn [fst snd].
+        split; [apply world_inv_set; [exact Iw|exact Iv1]|].
+        unfold wstep_post. rewrite G, get_set_same, get_set_other, b_set. cbn [vview view_step].
+        splits; auto.
+      + cbn [fst snd]. split; [exact Iw|]. unfold wstep_post. rewrite G. cbn [absent o_err vview view_step o_ret o_dtor].
+        splits; auto.
+    - (* a_buf_new *)
+      destruct (w_b w) as [b|] eqn:G.
+      + cbn [fst snd]. split; [exact Iw|]. unfold wstep_post. cbn [absent o_err]. rewrite G. auto.
+      + cbn [wop_pre] in Hpre.
+        destruct (buf_new_spec (w_heap w) siz num Hpre) as [h1 [ob [ev [E R]]]]. rewrite E. cbn [fst snd].
+        split.
+        * unfold world_inv. cbn [w_v0 w_v1 w_b]. splits; auto. destruct ob as [b|]; [apply R|exact I].
+        * unfold wstep_post. cbn [o_err w_v0 w_v1 w_b]. rewrite G. splits; auto.
+          destruct ob as [b|]; [right|left; reflexivity].
+          destruct R as [_ [Z [M A]]]. cbn [bview]. rewrite Z, M, A. reflexivity.
+    - (* a_buf_die *)
+      destruct (w_b w) as [b|] eqn:G.
+      + cbn in Ib. destruct Ib as [Ia Hb].
+        unfold buf_die. rewrite (arr_dtor_down_spec (b_arr b) 0 dt Ia). cbn [bind].
+        destruct (a_alloc (w_heap w) (Some (b_blk b)) 0) as [[p1 h1] ev1]. cbn [fst snd].
+        split; [unfold world_inv; cbn [w_v0 w_v1 w_b]; splits; auto; exact I|].
+        unfold wstep_post. cbn [o_err o_dtor w_v0 w_v1 w_b]. rewrite G.
+        cbn [bview N.to_nat skipn]. splits; auto.
+      + cbn [fst snd]. split; [exact Iw|]. unfold wstep_post. cbn [absent o_err o_dtor]. rewrite G.
+        cbn [bview]. splits; auto.
+    - (* a buffer operation *)
+      destruct (w_b w) as [b|] eqn:G.
+      + cbn in Ib. cbn [wop_pre] in Hpre. rewrite G in Hpre.
+        destruct (buf_step_refines cmp le_trans le_total (w_heap w) b o Ib Hpre)
+          as [h1 [b1 [r [E [Ib1 [Er Sp]]]]]].
+        rewrite E. cbn [fst snd].
+        split; [unfold world_inv; cbn [w_v0 w_v1 w_b]; splits; auto|].
+        unfold wstep_post. cbn [w_v0 w_v1 w_b]. rewrite G. cbn [bview view_step]. splits; auto.
+      + cbn [fst snd]. split; [exact Iw|]. unfold wstep_post. rewrite G.
+        cbn [absent o_err bview view_step o_ret o_dtor]. splits; auto.
+  Qed.
+
+  Lemma init_world_inv : forall sched limit, world_inv (init_world sched limit).
+  Proof. intros. unfold world_inv, init_world. cbn. auto. Qed.
+
+  (** for every finite history, from every state satisfying the invariant *)
+  Theorem history_ok : forall ops w, world_inv w -> hist_pre cmp w ops -> hist_post cmp w ops.
+  Proof.
+    induction ops as [|o ops IH]; intros w Iw Hpre; [exact I|].
+    cbn [hist_pre] in Hpre. destruct Hpre as [Hp Hrest].
+    destruct (wstep_ok w o Iw Hp) as [Iw' Post].
+    cbn [hist_post]. splits; auto.
+  Qed.
+
+  (* the outputs of [run] are the step outputs: no model error along any admissible history *)
+  Theorem run_no_error : forall ops w, world_inv w -> hist_pre cmp w ops ->
+      Forall (fun r => o_err r = None) (snd (run cmp w ops)) /\ world_inv (fst (run cmp w ops)).
+  Proof.
+    induction ops as [|o ops IH]; intros w Iw Hpre; [cbn; auto|].
+    cbn [hist_pre] in Hpre. destruct Hpre as [Hp Hrest].
+    destruct (wstep_ok w o Iw Hp) as [Iw' [Er _]].
+    cbn [run]. destruct (wstep cmp w o) as [w1 r] eqn:E. cbn [fst snd] in *.
+    destruct (IH w1 Iw' Hrest) as [F Iw2].
+    destruct (run cmp w1 ops) as [w2 rs]. cbn [fst snd] in *. split; [constructor; assumption|assumption].
+  Qed.
+End Histories.
